@@ -369,6 +369,67 @@ def check_dual_orientation(ctx, name):
                                   "%.2e (s=6) / %.2e (s=9); own quadrature error at s=6 is %.2e" % (kind, flip, e6, e9, q6))
 
 
+def check_bary_space_labelling(ctx, name, depth):
+    """Spaces on the barycentric refinement (BC, RBC, DUAL0, DUAL1) are functions of the geometry: relabelling vertices / elements must
+    give the same functions up to permutation and sign, and the permuted mixed mass matrices.  E2 over the coarse labelling generators."""
+    base_mesh = meshes.get(name, ctx.seed)
+    closed = R.is_closed_manifold(base_mesh[1])
+    fams = [("BC", {"kind": "BC"}), ("RBC", {"kind": "RBC"}), ("DUAL0", {"kind": "DUAL0", "inc": True, "trunc": False}), ("DUAL1", {"kind": "DUAL1"})]
+    partner = {"BC": {"kind": "SNC", "inc": True}, "RBC": {"kind": "RWG", "inc": True}, "DUAL0": {"kind": "P1", "inc": True}, "DUAL1": {"kind": "DP0"}}
+    g0 = SP.make_grid(base_mesh)
+    ref = {}
+    for kind, spec in fams:
+        try:
+            sp = SP.make_space(g0, dict(spec))
+            pt = SP.make_space(g0, dict(partner[kind]))
+        except Exception:  # noqa: BLE001
+            continue
+        if sp.global_dof_count == 0:
+            continue
+        bm = SP.mesh_of_grid(sp.grid)
+        M = ops.dense(ops.boundary("sparse", "identity", sp, sp, pt))
+        ref[kind] = (features(bm, sp), features(base_mesh, pt), M)
+    seen = {canon((base_mesh, ()))}
+    frontier = collections.deque([((base_mesh, ()), ())])
+    while frontier:
+        state, hist = frontier.popleft()
+        if len(hist) >= depth:
+            continue
+        gens = [("reverse-element-order",), ("roll-vertices",), ("rot-alt",)] + [("swap-vertices", a, a + 1) for a in range(base_mesh[0].shape[1] - 1)]
+        for gen in gens:
+            nxt = apply_gen(state, gen)
+            if nxt is None or canon(nxt) in seen:
+                continue
+            seen.add(canon(nxt))
+            ctx.states += 1
+            ctx.transitions += 1
+            h2 = hist + (gen,)
+            frontier.append((nxt, h2))
+            mesh2, _ = nxt
+            g2 = SP.make_grid(mesh2)
+            for kind, spec in fams:
+                if kind not in ref:
+                    continue
+                case = {"sub": "bary-labelling", "mesh": name, "space": kind, "word": [list(g) for g in h2]}
+                sig = "relabelling/barycentric-space/%s" % kind
+                try:
+                    sp2 = SP.make_space(g2, dict(spec))
+                    pt2 = SP.make_space(g2, dict(partner[kind]))
+                    M2 = ops.dense(ops.boundary("sparse", "identity", sp2, sp2, pt2))
+                except Exception as exc:  # noqa: BLE001
+                    ctx.violation(sig + "/exception:" + type(exc).__name__, case, repr(exc))
+                    continue
+                md = match(ref[kind][0], features(SP.mesh_of_grid(sp2.grid), sp2))
+                mt = match(ref[kind][1], features(mesh2, pt2))
+                ctx.case((name, "bary", kind, h2), sub="bary-labelling", sample=case if len(ctx.samples) < 6 and len(h2) == 1 else None)
+                if md is None or mt is None:
+                    ctx.violation(sig + "/space-not-equivariant", case, "the %s functions of the relabelled grid are not +- a permutation of the original ones" % kind)
+                    continue
+                (pd, sd), (pt_, st) = md, mt
+                want = (st[:, None] * ref[kind][2][np.ix_(pt_, pd)]) * sd[None, :]
+                ctx.check_close(sig + "/mass", case, M2, want, TOL, "relabelling(mixed mass)", scale=float(np.max(np.abs(want))))
+
+
 def memoise_duffy():
     """The singular rules are pure functions of the order generated by Python loops (n^4 iterations); this check assembles several
     thousand tiny operators, so the generator is memoised for the duration of the run (its results are copied on every use)."""
@@ -418,6 +479,8 @@ def run(ctx):
     ctx.cov["junction_labelling_states"] = ctx.states - before
     for name in (["tet"] if quick else ["tet", "octa", "cube12"]):
         check_dual_orientation(ctx, name)
+    for name in (["strip4", "fan5"] if quick else ["strip4", "fan5", "fan4", "screen2x2", "tet", "octa"]):
+        check_bary_space_labelling(ctx, name, 1 if quick else 2)
     ctx.cov["edge_adjacency_classes"] = len(classes[0])
     ctx.cov["vertex_adjacency_classes"] = len(classes[1])
     ctx.require(len(classes[0]) == 18, "all 18 (test remap, trial remap) edge classes realised in the labelling graph: %d" % len(classes[0]))
@@ -435,6 +498,9 @@ def run(ctx):
 def replay(ctx, case):
     quick = False
     oplist = [op for op in operator_list(False) if op[0] == case.get("operator")] or operator_list(True)
+    if case["sub"] == "bary-labelling":
+        check_bary_space_labelling(ctx, case["mesh"], len(case["word"]))
+        return
     if case["sub"] == "dual-orientation":
         memoise_duffy()
         check_dual_orientation(ctx, case["mesh"])
